@@ -849,7 +849,137 @@ impl CaseSpace for Cto {
     }
 }
 
+// ---------------------------------------------------------------------------------------
+// a point updated while the response that reports it is under way
+// ---------------------------------------------------------------------------------------
+
+/// A packed-format point (g1v1 / g3v1 / g10v1) lies in the second fragment of a READ answer and
+/// is updated between the fragments so that only its flags change between plainly ONLINE and
+/// not.  What arrives is one of the two measurements the point really had -- value *and*
+/// flags -- never the value of one with the flags (or the implied ONLINE) of the other.
+struct Racing;
+
+impl CaseSpace for Racing {
+    fn name(&self) -> String {
+        "update-between-fragments".into()
+    }
+    fn total(&self) -> usize {
+        3 * 2 * 2 * 2
+    }
+    fn run(&self, index: usize, transcript: bool) -> RunResult {
+        let mut res = RunResult::default();
+        let ty = [Ty::Binary, Ty::Double, Ty::BoStatus][index % 3];
+        let i = index / 3;
+        let to_online = i % 2 == 0; // selected with bad flags, then updated to plainly ONLINE
+        let value_changes = (i / 2) % 2 == 1;
+        let requested = (i / 4) % 2 == 1; // request the packed variation explicitly
+        res.obs = index as u64 + 606060;
+        let cfg = OCfg { sol_tx: 249, event_buf: [0; 8], ..Default::default() };
+        let mut sim = OSim::new(&cfg, 1);
+        let (group, packed_var) = match ty {
+            Ty::Binary => (1u8, 1u8),
+            Ty::Double => (3, 1),
+            _ => (10, 1),
+        };
+        let set = |db: &mut Database, on: bool, flags: u8| {
+            let fl = Flags::new(flags);
+            let t = Time::Synchronized(Timestamp::new(5));
+            let o = UpdateOptions::no_event();
+            match ty {
+                Ty::Binary => db.update(7, &BinaryInput::new(on, fl, t), o),
+                Ty::Double => db.update(7, &DoubleBitBinaryInput::new(if on { DoubleBit::DeterminedOn } else { DoubleBit::DeterminedOff }, fl, t), o),
+                _ => db.update(7, &BinaryOutputStatus::new(on, fl, t), o),
+            }
+        };
+        let (f0, f1) = if to_online { (0x05u8, 0x01u8) } else { (0x01, 0x05) };
+        sim.db(|db| {
+            for k in 0..60u16 {
+                db.add(k, None, AnalogInputConfig::default());
+                db.update(k, &AnalogInput::new(k as f64, Flags::ONLINE, Time::Synchronized(Timestamp::new(5))), UpdateOptions::no_event());
+            }
+            match ty {
+                Ty::Binary => db.add(7, None, BinaryInputConfig::new(StaticBinaryInputVariation::Group1Var1, EventBinaryInputVariation::Group2Var1)),
+                Ty::Double => db.add(7, None, DoubleBitBinaryInputConfig::new(StaticDoubleBitBinaryInputVariation::Group3Var1, EventDoubleBitBinaryInputVariation::Group4Var1)),
+                _ => db.add(7, None, BinaryOutputStatusConfig::new(StaticBinaryOutputStatusVariation::Group10Var1, EventBinaryOutputStatusVariation::Group11Var1)),
+            };
+            set(db, true, f0);
+        });
+        sim.take_out();
+        let mut objs = app::hdr_all(30, 0);
+        objs.extend(app::hdr_all(group, if requested { packed_var } else { 0 }));
+        sim.send(&app::request(1, fc::READ, &objs));
+        let first: Vec<app::Resp> = sim.take_out().iter().filter_map(|t| t.frag()).filter_map(app::Resp::parse).collect();
+        let Some(r1) = first.last().cloned() else {
+            res.violation = Some(Violation::new("C10.R0", "read-not-answered", String::new()));
+            return res;
+        };
+        if r1.fin() {
+            // the point was in the first fragment already: nothing to race with
+            return res;
+        }
+        let v1 = !value_changes;
+        sim.db(|db| set(db, v1, f1));
+        sim.send(&app::confirm(r1.seq(), false));
+        let mut frags = vec![r1];
+        for _ in 0..6 {
+            let rs: Vec<app::Resp> = sim.take_out().iter().filter_map(|t| t.frag()).filter_map(app::Resp::parse).collect();
+            let Some(r) = rs.last().cloned() else { break };
+            let fin = r.fin();
+            let seq = r.seq();
+            frags.push(r);
+            if fin {
+                break;
+            }
+            sim.send(&app::confirm(seq, false));
+        }
+        res.transitions += frags.len();
+        let mut got: Vec<Meas> = Vec::new();
+        for r in &frags {
+            if let Ok(h) = app::walk(&r.objects, false) {
+                if let Ok(ms) = decode_measurements(&h) {
+                    got.extend(ms.into_iter().filter(|m| m.group == group));
+                }
+            }
+        }
+        if transcript {
+            res.transcript.push(format!("{ty:?}: selected (true, {f0:#04x}), updated to ({v1}, {f1:#04x}) between the fragments; requested packed variation: {requested}"));
+            res.transcript.push(format!("reported: {got:?}"));
+        }
+        let key = format!("{ty:?}");
+        if got.len() != 1 {
+            res.violation = Some(Violation::new("C10.R1", key, format!("the point was reported {} times", got.len())));
+            return res;
+        }
+        let m = &got[0];
+        let val = match &m.val {
+            Val::Bool(b) => *b,
+            Val::Dbit(d) => *d == 2,
+            _ => false,
+        };
+        // a packed object carries no flags: it says "plainly ONLINE"
+        let flags = m.flags.map(|f| f & 0x3F).unwrap_or(0x01);
+        let is = |v: bool, f: u8| val == v && flags == f;
+        if !(is(true, f0) || is(v1, f1)) {
+            res.violation = Some(Violation::new(
+                "C10.R2",
+                key,
+                format!(
+                    "selected (true, flags {f0:#04x}), updated to ({v1}, flags {f1:#04x}) between the fragments: the master is told ({val}, flags {flags:#04x}) as g{}v{} -- a measurement the point never had",
+                    m.group, m.var
+                ),
+            ));
+            return res;
+        }
+        res.nontrivial = true;
+        res.model_states.push(index as u64);
+        res
+    }
+}
+
 pub fn replay(name: &str, path: &[usize]) -> Option<RunResult> {
+    if Racing.name() == name {
+        return Some(Racing.run(path[0], true));
+    }
     for tier in ["quick", "thorough"] {
         let v = build_values(tier);
         if v.name == name {
@@ -869,6 +999,7 @@ pub fn check(tier: &str) -> i32 {
     let mut c = Check::new("C10", tier);
     c.cases(&build_values(tier));
     c.cases(&IndexSets);
+    c.cases(&Racing);
     c.cases(&Cto);
     c.finish(
         "exploration",
